@@ -2,7 +2,7 @@
 From Coq Require Import List Bool Arith String.
 From PV Require Import Common.Cases C01.Model.
 Import ListNotations.
-Open Scope string_scope.
+
 
 (* "MRP, DMAP, Companion, AirPlay, RAOP; Companion first for power" *)
 Definition text_default : list proto := [MRP; DMAP; Companion; AirPlay; RAOP].
@@ -46,8 +46,8 @@ Definition opt_list {A} (o : option A) : list A :=
 (* the three members that are documented special cases *)
 Definition expected_kind (i : iface) (m : string) : kind :=
   match i with
-  | IStream => if String.eqb m "play_url" then KGated else KRelay
-  | IPushUpdater => if String.eqb m "start" || String.eqb m "stop" then KBroadcast else KRelay
+  | IStream => if String.eqb m "play_url"%string then KGated else KRelay
+  | IPushUpdater => if String.eqb m "start"%string || String.eqb m "stop"%string then KBroadcast else KRelay
   | _ => KRelay
   end.
 
